@@ -123,6 +123,12 @@ class BV:
         return 'BV[%s]' % ','.join(r(b) for b in self.bits)
 
 
+class RecordSym:
+    """symbolic by-value record argument: byte i bit b is symbol name[i].b"""
+    def __init__(self, name):
+        self.name = name
+
+
 class Ptr:
     """pointer to byte `off` of object `base` (('param', name) or ('local', id))"""
     __slots__ = ('base', 'off', 'elem')
@@ -162,6 +168,8 @@ def type_info(qt):
         return TYPE_INFO[qt]
     if qt.startswith('union ') or qt.startswith('struct '):
         return ('record', qt.split(' ', 1)[1])
+    if qt.startswith('enum '):
+        return (32, False, False)
     return None
 
 
@@ -179,7 +187,7 @@ def resolve_typedefs(u, qt):
                 changed = True
                 return tt.get('desugaredQualType') or tt.get('qualType')
             return w
-        qt = re.sub(r'[A-Za-z_]\w*', rep, qt)
+        qt = re.sub(r'(?<!struct )(?<!union )(?<!enum )\b[A-Za-z_]\w*', rep, qt)
         if not changed:
             break
     return qt
@@ -192,6 +200,7 @@ class Interp:
                  skip_guard_returns=False):
         self.hooks = hooks or {}
         self.skip_guard_returns = skip_guard_returns
+        self.tolerate_return = False
         self.u = unit
         self.big = big_endian
         self.linear_tables = linear_tables or {}   # name -> (list of ints, elemwidth)
@@ -211,31 +220,50 @@ class Interp:
         return type_info(resolve_typedefs(self.u, qt))
 
     def record_layout(self, name):
-        """field name -> (byte offset, type info); unions: all at 0. Only
-        records of scalar fields are supported (bf_convert* unions)."""
+        """field name -> (byte offset, type info); nested records are kept as
+        ('record', name) fields with their own layout (natural alignment)."""
+        c = self.__dict__.setdefault('_layouts', {})
+        if name in c:
+            return c[name]
         r = self.u.records.get(name)
         if r is None:
             raise Unsupported('record %s' % name)
         is_union = r.get('tagUsed') == 'union'
         off = 0
         size = 0
+        maxal = 1
         fields = {}
         for f in cast.inner(r):
             if f.get('kind') != 'FieldDecl':
                 continue
             ti = self.tinfo(f)
-            if not (isinstance(ti, tuple) and len(ti) == 3):
-                raise Unsupported('non-scalar field in %s' % name)
-            nbytes = ti[0] // 8
+            if isinstance(ti, tuple) and len(ti) == 3:
+                nbytes = ti[0] // 8
+                al = nbytes
+            elif ti[0] == 'ptr':
+                nbytes = al = 8
+            elif ti[0] == 'record':
+                sub, nbytes = self.record_layout(ti[1])
+                al = self._align.get(ti[1], 1)
+            else:
+                raise Unsupported('field type in %s' % name)
+            maxal = max(maxal, al)
             if is_union:
                 fields[f['name']] = (0, ti)
                 size = max(size, nbytes)
             else:
-                off = (off + nbytes - 1) // nbytes * nbytes
+                off = (off + al - 1) // al * al
                 fields[f['name']] = (off, ti)
                 off += nbytes
                 size = off
-        return fields, size
+        size = (size + maxal - 1) // maxal * maxal
+        self._align[name] = maxal
+        c[name] = (fields, size)
+        return c[name]
+
+    @property
+    def _align(self):
+        return self.__dict__.setdefault('_align_d', {})
 
     # -- function application ---------------------------------------------
     def run(self, fname, args, depth=0):
@@ -285,7 +313,10 @@ class Frame:
             return
         if ti[0] == 'record':
             fields, size = self.ip.record_layout(ti[1])
-            self.objs[decl['id']] = {'bits': [ZERO] * (size * 8), 'size': size, 'record': ti[1]}
+            bits = [ZERO] * (size * 8)
+            if isinstance(value, RecordSym):
+                bits = [(0, frozenset(['%s[%d].%d' % (value.name, i // 8, i % 8)])) for i in range(size * 8)]
+            self.objs[decl['id']] = {'bits': bits, 'size': size, 'record': ti[1]}
             return
         width = ti[0]
         if value is None:
@@ -324,7 +355,21 @@ class Frame:
             return ('obj', d['id'], 0, self.ip.tinfo(n))
         if k == 'MemberExpr':
             if n.get('isArrow'):
-                raise Unsupported('-> access')
+                p = self.rvalue(n['inner'][0])
+                if not isinstance(p, Ptr):
+                    raise Unsupported('-> on non-pointer')
+                bt = n['inner'][0].get('type', {})
+                qt = resolve_typedefs(self.ip.u, (bt.get('desugaredQualType') or bt.get('qualType') or ''))
+                qt = qt.replace('const ', '').strip()
+                if not qt.endswith('*'):
+                    raise Unsupported('-> base type %s' % qt)
+                rt = type_info(qt[:-1].strip())
+                if not rt or rt[0] != 'record':
+                    raise Unsupported('-> on pointer to %s' % qt)
+                fields, _ = self.ip.record_layout(rt[1])
+                off, ti = fields[n['name']]
+                d = self.deref(Ptr(p.base, p.off, 1), ti)
+                return (d[0], d[1], d[2] + off, ti)
             base = self.lvalue(n['inner'][0])
             bt = base[3]
             if bt[0] != 'record':
@@ -428,6 +473,12 @@ class Frame:
                 return self.load(self.lvalue(sub))
             if ck in ('NoOp',):
                 return self.rvalue(sub)
+            if ck == 'ToVoid':
+                try:
+                    self.rvalue(sub)
+                except Unsupported:
+                    pass
+                return BV.const(0, 32, True)
             if ck == 'BitCast' or ck == 'NullToPointer':
                 v = self.rvalue(sub)
                 if isinstance(v, Ptr):
@@ -446,6 +497,12 @@ class Frame:
                 return self.rvalue(sub)
             raise Unsupported('cast kind %s' % ck)
         if k == 'DeclRefExpr':
+            rd = n.get('referencedDecl', {})
+            if rd.get('kind') == 'EnumConstantDecl':
+                v = self.ip.u.enums.get(rd['name'])
+                if v is None:
+                    raise Unsupported('enum constant %s' % rd['name'])
+                return BV.const(v, 32, False)
             return self.load(self.lvalue(n))
         if k == 'UnaryExprOrTypeTraitExpr':
             if n.get('name') != 'sizeof':
@@ -607,6 +664,8 @@ class Frame:
         for a in args:
             if isinstance(a, Ptr) and a.base[0] == 'local':
                 raise Unsupported('local passed by pointer to %s' % name)
+            if isinstance(a, RecordSym):
+                raise Unsupported('record passed by value to %s' % name)
         ret, stores, loads = self.ip.run(name, args, self.depth + 1)
         # loads in callee see caller's earlier stores only if none happened
         for key in loads:
@@ -662,7 +721,12 @@ class Frame:
             if self.guard != ONE:
                 raise Unsupported('conditional return')
             inn = cast.inner(s)
-            self.ret = self.rvalue(inn[0]) if inn else None
+            try:
+                self.ret = self.rvalue(inn[0]) if inn else None
+            except Unsupported:
+                if not self.ip.tolerate_return:
+                    raise
+                self.ret = None
             self.returned = True
             return
         if k == 'IfStmt':
